@@ -65,7 +65,8 @@ CLAIMED['C02'] = dict(
          'each run; WellLocked is decided on them (generated_well_locked, collect_paths_release_before_user_code) and meta-theorems over an interleaving semantics with a non-re-entrant lock '
          'table hold for any number of threads, any programs and every schedule: mutual_exclusion, no_lost_update (+ commutative-monoid sum), reads_are_held_values, reads_monotone, '
          'one_shared_child, no_iteration_error, deadlock_free, reentrant_collect_never_blocks; both value back-ends. A deterministic bytecode-level scheduler runs real threads on the real code '
-         '(all schedules up to a pre-emption bound + seeded random) with an independent oracle, and every observed outcome must lie in the outcome set the model computes.',
+         '(within a time budget: every schedule with 0 pre-emptions, every schedule with 1 pre-emption where the budget allows — per-program completeness is in the evidence — '
+         'plus seeded random schedules; the thorough tier goes further) with an independent oracle, and every observed outcome must lie in the outcome set the model computes.',
     note='PARTIAL by nature: the theorems are about the extracted skeletons; that a thread switch falls only between bytecodes, that += is load/add/store, that the skeleton lists every shared '
          'access, threading.Lock semantics and mmap visibility across threads are runtime facts sampled by the scheduler harness, not proved.',
     ref='DESIGN.md 5 C02',
@@ -91,7 +92,8 @@ CLAIMED['C07'] = dict(
          'restricted_is_filter (restricted collect is a permutation of the per-sample-name filter of the full collection keeping name, type, help and unit, empty families dropped) under the '
          'explicit precondition ClaimsCover, restricted_calls_only_claimants. Real registries × name subsets (exhaustive for ≤ 8 names + random) judged by an independent filter oracle with '
          'call counting.',
-    note='ClaimsCover (a collector only emits sample names it claimed) is a genuine precondition, checked per generated registry, not proved for the built-in classes. The HTTP name[] mapping is C17.',
+    note='ClaimsCover (a collector only emits sample names it claimed) is a precondition of restricted_is_filter: proved for all built-in metric classes (builtin_claims_cover), false for collectors '
+         'without describe() under auto_describe off = known finding C07:undescribed-collector-not-restrictable. http_name_param links C17.',
     ref='DESIGN.md 5 C07')
 CLAIMED['C10'] = dict(
     text='Byte-level model of MmapedDict (layout, padding, doubling loop, positions, the three readers) with layout arithmetic re-extracted from mmap_dict.py; theorems for all write/read/reopen '
@@ -113,8 +115,9 @@ CLAIMED['C16'] = dict(
          'induction over arbitrary call trees, clocks and exception classes: transparent (same value / same exception object), inprogress_balanced, one_observation_per_call with non-negative '
          'clamped durations (timer_exact), exception_counted_iff, forward_roundtrip, bind failures are TypeError; *_partial theorems carry exactly the known-finding hypotheses with kernel-checked '
          'counter-examples. exec-generated callables with all parameter kinds, scripted bodies and clocks are run through the real wrappers with an identity/metric-delta oracle.',
-    note='Known findings (vendored decorator.py, listed): F13 positional-only/keyword clash, F22 keyword-only _call_/_func_, F23 lambda renamed. exec-generated wrapper source and CPython binding are modelled, '
-         'not verified; async/generator bodies not modelled.',
+    note='Known findings (vendored decorator.py, listed): F13 positional-only parameters (clash / accepted by keyword / marker lost), F22 keyword-only _call_/_func_, F23 lambda renamed, F34 non-function callables refused. '
+         'inprogress_balanced is about exact arithmetic (Int); on doubles the gauge returns to its prior value up to IEEE rounding of +1/−1 (exact for integer-valued gauges below 2^53). '
+         'exec-generated wrapper source and CPython binding are modelled, not verified; async/generator bodies not modelled.',
     ref='DESIGN.md 5 C16')
 
 CLAIMED['C08'] = dict(
